@@ -343,7 +343,7 @@ def seq_job(args):
     import bellows.zigbee.application as A
 
     shipped_period = A.EZSP_COUNTERS_CLEAR_IN_WATCHDOG_PERIODS
-    depth = 5 if tier == "quick" else 7
+    depth = 5 if tier == "quick" else 6
     viol = []
     out = {"v": v, "states": 0, "transitions": 0, "stateless": 0, "sigs": set(), "samples": [], "viol": viol, "internal": None}
     outs = OUTCOMES_V4 if v == 4 else OUTCOMES
@@ -418,7 +418,7 @@ def seq_job(args):
 def main(tier: str) -> int:
     rep = report.Report("C19", tier, "model_checking")
     versions = [4, 8, 14] if tier == "quick" else [4, 5, 7, 8, 9, 13, 14]
-    depth = 5 if tier == "quick" else 7
+    depth = 5 if tier == "quick" else 6
     graphs = sorted(explore.pool().imap_unordered(graph_job, [(v, tier) for v in versions], chunksize=1), key=lambda r: r["v"])
     jobs = [(g["v"], tier, first, g["edges"]) for g in graphs if not g["internal"]
             for first in range(len(OUTCOMES_V4 if g["v"] == 4 else OUTCOMES))]
